@@ -531,3 +531,18 @@ impl<T: FloatT> PowerCone<T> {
 pub fn verif_newton_raphson_powcone<T: FloatT>(s3: T, phi: T, α: T) -> T {
     _newton_raphson_powcone(s3, phi, α)
 }
+// ---------------------------------------------
+// verification hooks (pub wrappers of the crate-private feasibility tests)
+// ---------------------------------------------
+#[cfg(clarabel_verif)]
+impl<T> PowerCone<T>
+where
+    T: FloatT,
+{
+    pub fn verif_c15_is_primal_feasible(&self, s: &[T]) -> bool {
+        NonsymmetricCone::is_primal_feasible(self, s)
+    }
+    pub fn verif_c15_is_dual_feasible(&self, z: &[T]) -> bool {
+        NonsymmetricCone::is_dual_feasible(self, z)
+    }
+}
